@@ -1,6 +1,9 @@
 package main
 
-import "fmt"
+import (
+	"fmt"
+	"go/types"
+)
 
 // explainGoal decomposes a goal into the sub-formulas whose truth values in a
 // counter-model tell which part of a clause failed.
@@ -56,4 +59,56 @@ func continuesExpr(s string) bool {
 		return true
 	}
 	return false
+}
+
+// importTypeLines adds datatype declarations made in another context (the one
+// in which a callee's frame was computed) that this context lacks.
+func (c *Ctx) importTypeLines(lines []string) {
+	for _, l := range lines {
+		const p = "(declare-datatypes (("
+		if len(l) < len(p) || l[:len(p)] != p {
+			continue
+		}
+		rest := l[len(p):]
+		end := 0
+		for end < len(rest) && rest[end] != ' ' {
+			end++
+		}
+		name := rest[:end]
+		if name == "Slice" || c.dtDone[name] {
+			continue
+		}
+		c.dtDone[name] = true
+		c.typeLines = append(c.typeLines, l)
+	}
+}
+
+// ghostRange: values read by specification code get no assumptions; instead a
+// value of an unsigned type (or a length) is clamped into its type's range. The
+// clamp is the identity on every value the program can hold, so the meaning of
+// the specification is unchanged while the solver learns the bounds.
+func (ex *Exec) ghostRange(v *Term, lo, hi *Term) *Term {
+	if ex.ghost == 0 || v.Sort != SInt || v.IsLit() {
+		return v
+	}
+	r := v
+	if hi != nil {
+		r = Ite(Gt(r, hi), hi, r)
+	}
+	if lo != nil {
+		r = Ite(Lt(v, lo), lo, r)
+	}
+	return r
+}
+
+func (ex *Exec) ghostTyped(v *Term, t types.Type) *Term {
+	if ex.ghost == 0 || v == nil || v.Sort != SInt || !isUnsigned(t) {
+		return v
+	}
+	_, hi, ok := intRange(t)
+	if !ok {
+		return v
+	}
+	h, _ := newBig(hi)
+	return ex.ghostRange(v, IntLit(0), BigLit(h))
 }
